@@ -3,6 +3,7 @@
 package pp
 
 import (
+	"regexp"
 	"strings"
 
 	"github.com/ohler55/slip"
@@ -40,9 +41,17 @@ func (doc *Doc) reorg(edge int) int {
 	return doc.wide
 }
 
+// continuation matches a line break followed by the indentation an earlier
+// pretty print of the same documentation string put in front of the
+// continuation line. The indentation is layout, it is written again according
+// to the position of the string, keeping it would indent the text deeper each
+// time the definition is saved and loaded.
+var continuation = regexp.MustCompile("\\n[ \\t]+")
+
 func (doc *Doc) adjoin(b []byte) []byte {
 	b = append(b, '"')
-	for _, c := range slip.AppendDoc(nil, docMarker.Replace(doc.text), doc.x+1, doc.x+doc.wide, false, 0) {
+	text := continuation.ReplaceAllString(doc.text, "\n ")
+	for _, c := range slip.AppendDoc(nil, docMarker.Replace(text), doc.x+1, doc.x+doc.wide, false, 0) {
 		switch c {
 		case quoteMark:
 			b = append(b, '\\', '"')
